@@ -128,7 +128,7 @@ def run_case(case):
     grew = False
     samples = []
     try:
-        simprop.boot(sim)
+        simprop.boot(sim, need_leader=True)
         leader = [n for n in sim.live() if sim.nodes[n]._isLeader()]
         if not leader:
             raise runner.HarnessError('no leader after boot in a healthy cluster: %r' % (sim.escaped[:3],))
